@@ -127,7 +127,22 @@ def main():
         focus = [m['case'] for m in result['mismatches']]
         extra = list(getattr(mod, 'search_cases', lambda rng, focus, n: [])(srng, focus, n * SEARCH_SCALE))
         scases = focus + extra + list(mod.gen(srng, n * SEARCH_SCALE, 'thorough'))
-        sres = explore(mod, scases, findings, args.jobs, with_model=False)
+        # the search runs in chunks under a wall-clock budget: it stops at the first failing input, or when the budget
+        # is used up (then the verdict is `no-failing-input-found`, naming what no longer checks)
+        budget = float(os.environ.get('VERIF_SEARCH_SECONDS', '420' if args.tier == 'quick' else '3600'))
+        t_search = time.time()
+        chunk = max(16, min(400, len(scases) // 8 or 16))
+        sres = {'violations': []}
+        searched = 0
+        for k in range(0, len(scases), chunk):
+            part = explore(mod, scases[k:k + chunk], findings, args.jobs, with_model=False)
+            searched += len(scases[k:k + chunk])
+            if part['violations']:
+                sres = part
+                break
+            if time.time() - t_search > budget:
+                break
+        scases = scases[:searched]
         if sres['violations']:
             v = sres['violations'][0]
             violations = sres['violations']
